@@ -22,13 +22,16 @@ pub fn gen_namespace() -> uuid::Uuid {
     uuid::Uuid::nil()
 }
 
-/// transaction id -> n such that id = v5(namespace, n)
+/// transaction id -> n such that id = v5(namespace, n) (the model's name for it); an id that is not of
+/// that form gets a fresh negative number, the same one every time it is seen: distinct ids stay distinct
+/// (C02 / C14 speak of uniqueness only; the derivation is conformance to the model)
 pub struct TxIds {
     tab: Mutex<(HashMap<uuid::Uuid, i64>, u64)>,
+    other: Mutex<HashMap<uuid::Uuid, i64>>,
 }
 impl TxIds {
     pub fn new() -> Self {
-        TxIds { tab: Mutex::new((HashMap::new(), 0)) }
+        TxIds { tab: Mutex::new((HashMap::new(), 0)), other: Mutex::new(HashMap::new()) }
     }
     pub fn index(&self, id: &uuid::Uuid, hint: u64) -> i64 {
         let mut g = self.tab.lock().unwrap();
@@ -39,7 +42,12 @@ impl TxIds {
             g.0.insert(u, n as i64);
             g.1 += 1;
         }
-        *g.0.get(id).unwrap_or(&-1)
+        if let Some(n) = g.0.get(id) {
+            return *n;
+        }
+        let mut o = self.other.lock().unwrap();
+        let k = -(o.len() as i64) - 2;
+        *o.entry(*id).or_insert(k)
     }
 }
 
